@@ -136,6 +136,17 @@ CHECKS = [
              "node vector (Trace_Derive) and each value's bytes (Trace_Codec / SerAllowed under the derived schema); typed round trips are compared with ==.",
      "note": TLC_NOTE + " rustc / serde_derive are trusted; type families are sampled, not exhaustive.",
      "technique": "TLA+ model of the derive construction + Fits relation checked by TLC; TLC-enumerated and random type shapes compiled to Rust and replayed; derived schemas and serialized values trace-validated by TLC"},
+    {"property_id": "C10", "level": "exploration", "design_ref": "DESIGN.md §6 C10",
+     "text": "Lifecycle.tla models the ownership design (schema slots: SchemaMut / owned / moved / Arc handles, SerializerConfig borrow scopes, container readers "
+             "holding an Arc plus raw node references, node-vector allocations). TLC checks NoDangling / FrozenWhole / Accounting on all histories within the bounds "
+             "(563k states quick), refutes two mutated designs, and generates histories: one per (abstract state, incoming operation) at depth 5 (6 thorough) plus "
+             "random walks of 16 steps. The safe-Rust interpreter vl executes every history on the real API natively (par_use on real threads vs the same scripts "
+             "sequentially; two runs compared) and the highest-scoring + a random sample under Miri (Stacked Borrows; thorough: also Tree Borrows), the oracle for "
+             "undefined behaviour: error paths of freeze at three key positions, moves through Box / Vec, Arc handles dropped before / after readers, readers moved "
+             "mid-file and dropped in any state, borrowed and owned values used after their schema and reader are gone.",
+     "note": TLC_NOTE + " TLC cannot observe undefined behaviour: Miri is the oracle, on null / deflate / snappy codecs only, one thread schedule per seed; the sample "
+             "of histories run under Miri is bounded by its speed (about 5 s per history).",
+     "technique": "TLA+ ownership model checked by TLC, which also generates API histories; histories replayed by a safe-Rust interpreter natively (threads vs sequential) and under Miri"},
 ]
 
 _PENDING = "check not built yet in this revision of /verif (see DESIGN.md §10 build order); nothing is claimed"
